@@ -166,6 +166,42 @@ Fixpoint exec (T : Z) (w : wst) (o : option (rv * Z)) (l : list pstep) : list (Z
       here ++ exec T (on_processed T (p_end p) w1 (p_patched p)) (spec_patch T o1 (p_patched p) (p_end p)) l'
   end.
 
+(* ---------------- the property in its own words: views and versions ---------------- *)
+(* handler invocations with what the property text speaks about: the time, the resourceVersion of the view the
+   handlers see, and the operator's last own patch of this object (version, time the processor returned it) —
+   whether or not it has been echoed *)
+Definition last_patch (T : Z) (last : option (rv * Z)) (newer : option rv) (t_end : Z) : option (rv * Z) :=
+  match newer with
+  | Some r => if Z.eqb T 0 then last else Some (r, t_end)
+  | None => last
+  end.
+
+Fixpoint exec_views (T : Z) (w : wst) (last : option (rv * Z)) (l : list pstep)
+  : list (Z * option rv * option (rv * Z)) :=
+  match l with
+  | [] => []
+  | p :: l' =>
+      let w1 := on_event w (p_rv p) in
+      let g := gin_of w1 p in
+      let here := if runs_handlers g then [(o_until (gate g), p_rv p, last)] else [] in
+      here ++ exec_views T (on_processed T (p_end p) w1 (p_patched p)) (last_patch T last (p_patched p) (p_end p)) l'
+  end.
+
+(* the watch stream delivers the events of one object in the order of their versions
+   (`ver` = any order-embedding of resourceVersions; Kubernetes: the etcd revision) *)
+Fixpoint delivered_in_order (ver : rv -> Z) (cur : Z) (l : list pstep) : Prop :=
+  match l with
+  | [] => True
+  | p :: l' => exists y, p_rv p = Some y /\ cur <= ver y /\ delivered_in_order ver (ver y) l'
+  end.
+
+(* the statement of C07 for one handler invocation *)
+Definition view_ok (ver : rv -> Z) (T : Z) (x : Z * option rv * option (rv * Z)) : Prop :=
+  match x with
+  | (t, Some y, Some (r, tp)) => ver r <= ver y \/ tp + T <= t
+  | _ => True
+  end.
+
 (* ---------------- what the D-tie compares (one run of process_resource_causes around the gate) ---------------- *)
 (* inputs as the harness sets them up; outputs: aiotime.sleep awaited?, time of return, process_changing_cause
    called?, the `matched` flag returned, number of functions appended to patch.fns (block/allow_deletion) *)
@@ -178,8 +214,34 @@ Definition gate_case (has_cause gone must_block blocked ongoing : bool) (ct : op
   (o_slept o, o_until o, o_go o && fst pg, o_go o && fst pg,
    ((if snd pg then 1 else 0) + (if releases g false ongoing blocked true then 1 else 0))%nat).
 
+(* time at which the low-level part (on.event handlers, daemon/timer spawning) of that run happens *)
+Definition gate_case_low (now : Z) (ct : option Z) (press : option Z) : Z :=
+  c_low_at (cycle (mkG true false ct true true now press)).
+
 Definition gate_obs_eqb (a b : bool * Z * bool * bool * nat) : bool :=
   match a, b with
   | (s1, u1, c1, m1, n1), (s2, u2, c2, m2, n2) =>
       Bool.eqb s1 s2 && Z.eqb u1 u2 && Bool.eqb c1 c2 && Bool.eqb m1 m2 && Nat.eqb n1 n2
   end.
+
+(* ---------------- what the cycle tie compares (real worker + real gate + real pressure) ---------------- *)
+Definition orv_eqb (a b : option rv) : bool :=
+  match a, b with Some x, Some y => String.eqb x y | None, None => true | _, _ => false end.
+
+Definition olast_eqb (a b : option (rv * Z)) : bool :=
+  match a, b with
+  | Some (x, t), Some (y, u) => String.eqb x y && Z.eqb t u
+  | None, None => true
+  | _, _ => false
+  end.
+
+Fixpoint views_eqb (a b : list (Z * option rv * option (rv * Z))) : bool :=
+  match a, b with
+  | [], [] => true
+  | (t, v, l) :: a', (t', v', l') :: b' => Z.eqb t t' && orv_eqb v v' && olast_eqb l l' && views_eqb a' b'
+  | _, _ => false
+  end.
+
+(* the handler invocations of the model on the processed events the harness observed = those observed *)
+Definition cycle_ok (T : Z) (l : list pstep) (obs : list (Z * option rv * option (rv * Z))) : bool :=
+  views_eqb (exec_views T w0 None l) obs.
